@@ -90,6 +90,16 @@ func rbPollingInputs(eio int) []rbInput {
 		raw("open-packet", map[int]string{4: `0{"sid":"x"}`, 3: `12:0{"sid":"x"}`}[eio], txt),
 		raw("upgrade-packet", map[int]string{4: "5", 3: "1:5"}[eio], txt),
 		raw("message", map[int]string{4: "4ok", 3: "3:4ok"}[eio], txt),
+		{"chunked-post", func(v *rbVictim) int {
+			// a data request without Content-Length (chunked transfer)
+			body := map[int]string{4: "4ok", 3: "3:4ok"}[eio]
+			v.reqs = append(v.reqs, v.w.Request("POST", v.pc.url(true), ReqOpt{Body: []byte(body), UnknownLength: true, Hdr: map[string]string{"Content-Type": txt}}))
+			return len(body)
+		}},
+		{"chunked-post-empty", func(v *rbVictim) int {
+			v.reqs = append(v.reqs, v.w.Request("POST", v.pc.url(true), ReqOpt{Body: []byte{}, UnknownLength: true, Hdr: map[string]string{"Content-Type": txt}}))
+			return 0
+		}},
 		{"method-put", func(v *rbVictim) int {
 			v.reqs = append(v.reqs, v.w.Request("PUT", v.pc.url(true), ReqOpt{Body: []byte("4x")}))
 			return 2
